@@ -35,13 +35,15 @@ fI == F("I", "lookup", <<Read("I", "value")>>)        \* a data column that happ
 \* attribute access of depth two and a method call on a value: what is read is the object z
 fzt == F("z.T.T", "python", <<Read("z", "value")>>)
 fzc == F("z.T.copy()", "python", <<Read("z", "value")>>)
+\* a quoted column inside a python factor
+fIq == F("I(`x y`)", "python", <<Read("I", "callable"), Read("q", "value")>>)
 \* the same callable twice inside one factor, on different arguments
 fII == F("I(x) + I(z)", "python", <<Read("I", "callable"), Read("x", "value"), Read("I", "callable"), Read("z", "value")>>)
 \* formulas: sequences of terms, a term = sequence of factors (no intercept: 0 + ...)
 Formulas == << <<<<fx>>>>, <<<<fx>>, <<fz>>>>, <<<<fIx>>>>, <<<<fsum>>>>, <<<<fx>>, <<fz, fx>>>>, <<<<fIx>>, <<fz>>>>, <<<<fq>>, <<fq, fx>>>>, <<<<fI>>, <<fx>>>>,
-              <<<<fzt>>, <<fx>>>>, <<<<fzc>>>>, <<<<fII>>>> >>
+              <<<<fzt>>, <<fx>>>>, <<<<fzc>>>>, <<<<fII>>>>, <<<<fIq>>, <<fx>>>> >>
 FormulaText == << "0 + x", "0 + x + z", "0 + I(x)", "0 + {x + z}", "0 + x + z:x", "0 + I(x) + z", "0 + `x y` + `x y`:x", "0 + I + x",
-                 "0 + {z.T.T} + x", "0 + {z.T.copy()}", "0 + {I(x) + I(z)}" >>
+                 "0 + {z.T.T} + x", "0 + {z.T.copy()}", "0 + {I(x) + I(z)}", "0 + I(`x y`) + x" >>
 
 RECURSIVE FlatE(_, _)
 FlatE(G(_), s) == IF s = <<>> THEN <<>> ELSE G(Head(s)) \o FlatE(G, Tail(s))
@@ -67,6 +69,7 @@ FactorVal(pat, f) ==
     [] f.e = "I" -> ValueOf(pat, "I")
     [] f.e = "I(x)" -> ApplyI(pat, ValueOf(pat, "x"))
     [] f.e \in {"z.T.T", "z.T.copy()"} -> ValueOf(pat, "z")
+    [] f.e = "I(`x y`)" -> ApplyI(pat, ValueOf(pat, "q"))
     [] f.e = "I(x) + I(z)" -> LET a == ApplyI(pat, ValueOf(pat, "x")) b == ApplyI(pat, ValueOf(pat, "z")) IN [i \in 1..3 |-> a[i] + b[i]]
     [] f.e = "x + z" -> [i \in 1..3 |-> ValueOf(pat, "x")[i] + ValueOf(pat, "z")[i]]
 RECURSIVE TermVal(_, _)
